@@ -4,7 +4,7 @@ func init() { register("C07", "other", checkC07) }
 
 func checkC07(w *World, r *Result) {
 	r.Explanation = "Decides non-interference of every nondeterminism source with generated text, over all production packages: ORD-1 each range over a map has an order-insensitive body (stores keyed by the range key or of constants, receiver-confined calls on the value, appends that are sorted by a total order before any other use) or a justified entry whose side condition is re-checked; ORD-2 no clock, randomness, environment, process identity or directory listing in analysis/generator packages; ORD-3 no token.Pos or raw pointer/func/chan/map value is formatted into non-diagnostic text; ORD-4 goroutines and channel operations only in package cmd, after generation; ORD-5 multi-pass sorts are stable after the first pass (see C19). If all sources are non-interfering, sequential Go code is a function of its input: for the clause 'no output depends on map order, pointer values, clocks' this is (modulo the justified table) a sufficient argument. Does not decide: independence from the order in which types are visited, which additionally needs equal declaration IDs to carry equal content."
-	r.Rules = []string{"ORD-1 map ranges", "ORD-2 ambient sources", "ORD-3 formatted positions/pointers", "ORD-4 concurrency", "ORD-5 stable later passes", "PKG-ID", "SORT-PAR", "ALIAS-APPEND", "STATE-PKG", "MUT-AN", "RANGE-INSERT", "POS-ORDER"}
+	r.Rules = []string{"ORD-1 map ranges", "ORD-2 ambient sources", "ORD-3 formatted positions/pointers", "ORD-4 concurrency", "ORD-5 stable later passes", "PKG-ID", "SORT-PAR", "ALIAS-APPEND", "STATE-PKG", "MUT-AN", "RANGE-INSERT", "POS-ORDER", "UNUSED-PURE", "ORD-1 iterators (maps.Keys/Values/All)", "SEP-INDEX", "WORKLIST-RANGE", "CUTSET", "SHIFT-SKIP"}
 	posOrderRule(w, r, nil)
 	mutAnRule(w, r, nil)
 	rangeInsertRule(w, r, nil)
